@@ -1,7 +1,7 @@
 (* force_denotes for the frame-for-frame explicit-stack machine: the big-step
    theorem (CsgThms.force_denotes_thm) transported along the refinement
    (CsgStack.do_hops_stack). *)
-From Coq Require Import List ZArith Bool Arith.
+From Coq Require Import List ZArith Bool Arith Lia.
 From MV Require Import Csg.CsgDefs Csg.CsgAlgebra Csg.CsgHeap Csg.CsgVisit Csg.CsgModel Csg.CsgThms Csg.CsgStack.
 Import ListNotations.
 
@@ -19,4 +19,76 @@ Proof.
   unfold run in R. destruct (do_hops_stack A _ _ _ _ _ _ _ _ R) as [fuel' R'].
   exists fuel', s', lid, lf. split; [exact R'|]. repeat (split; [assumption|]).
   intros b w Hw. destruct (Hb b w Hw) as (i & i' & _ & H2 & _ & H4). eauto.
+Qed.
+
+(* ---------------- with reference counts instead of an oracle ---------------- *)
+Lemma do_hops_rc_mono (A : CsgOps) ovl sz kmax f f' b : f <= f' -> forall l t t',
+  do_hops_rc A ovl sz kmax f b t l = Some t' -> do_hops_rc A ovl sz kmax f' b t l = Some t'.
+Proof.
+  intros Hle. induction l as [|y l IHl]; intros t t' H; cbn [do_hops_rc] in *; [assumption|]. unfold do_hop_rc in *.
+  destruct (do_hop A (uniq_rc A (st_handles A t)) ovl sz kmax f b t y) as [t2|] eqn:E; [|discriminate].
+  rewrite (do_hop_mono A _ _ _ _ f f' b _ _ _ Hle E). apply IHl. assumption.
+Qed.
+
+Lemma do_hops_rc_stack (A : CsgOps) ovl sz kmax : forall l fuel s s',
+  do_hops_rc A ovl sz kmax fuel false s l = Some s' ->
+  exists fuel', do_hops_rc A ovl sz kmax fuel' true s l = Some s'.
+Proof.
+  induction l as [|x r IH]; intros fuel s s' H; cbn [do_hops_rc] in *; [exists 0; assumption|].
+  unfold do_hop_rc in *.
+  destruct (do_hop A (uniq_rc A (st_handles A s)) ovl sz kmax fuel false s x) as [s1|] eqn:E; [|discriminate].
+  destruct (do_hop_stack A _ _ _ _ _ _ _ _ E) as [f1 E1]. destruct (IH _ _ _ H) as [f2 E2].
+  exists (f1 + f2). cbn [do_hops_rc]. unfold do_hop_rc.
+  rewrite (do_hop_mono A _ _ _ _ f1 (f1 + f2) true _ _ _ ltac:(lia) E1).
+  apply (do_hops_rc_mono A ovl sz kmax f2 (f1 + f2) true ltac:(lia)). assumption.
+Qed.
+
+Lemma do_hops_rc_app (A : CsgOps) ovl sz kmax fuel b : forall l1 l2 s,
+  do_hops_rc A ovl sz kmax fuel b s (l1 ++ l2) =
+  match do_hops_rc A ovl sz kmax fuel b s l1 with
+  | Some s1 => do_hops_rc A ovl sz kmax fuel b s1 l2
+  | None => None
+  end.
+Proof.
+  induction l1 as [|x r IH]; intros l2 s; cbn [app do_hops_rc]; [reflexivity|].
+  destruct (do_hop_rc A ovl sz kmax fuel b s x); [apply IH|reflexivity].
+Qed.
+
+(* force_denotes for the model that takes its collapse decisions from reference counts, big-step and explicit stack *)
+Theorem rc_force_denotes_thm (A : CsgOps) (LW : CsgLaws A) ovl sz kmax (l : list (hop A)) sp a v :
+  ovl_sound A ovl -> 2 <= kmax -> spec_hops A [] l = Some sp -> sp_handle A sp a = Some v ->
+  exists fuel s' lid lf,
+    do_hops_rc A ovl sz kmax (S (length l)) false (init_state A) (l ++ [HForce A a]) = Some s' /\
+    do_hops_rc A ovl sz kmax fuel true (init_state A) (l ++ [HForce A a]) = Some s' /\
+    wf A (st_heap A s') /\
+    handle A s' a = Some lid /\ get_node A (st_heap A s') lid = Some (NLeaf A lf) /\ eqS A (lden A lf) v /\
+    (forall b w, sp_handle A sp b = Some w ->
+       exists i', handle A s' b = Some i' /\ eqS A (dn A (st_heap A s') i') w).
+Proof.
+  intros OS K2 Hs Ha.
+  destruct (do_hops_rc_ok A LW ovl sz kmax OS K2 l (S (length l)) (init_state A) [] sp (rel_init A) Hs ltac:(cbn; lia))
+    as (s & D & R & _ & Lc). cbn in Lc.
+  destruct (force_ok A LW (uniq_rc A (st_handles A s)) ovl sz kmax OS K2 (S (length l)) s sp a v R Ha ltac:(lia))
+    as (s' & lid & lf & F & Hh & Hg & Hl & R' & _).
+  assert (D2 : do_hops_rc A ovl sz kmax (S (length l)) false (init_state A) (l ++ [HForce A a]) = Some s').
+  { rewrite do_hops_rc_app, D. cbn [do_hops_rc]. unfold do_hop_rc. cbn [do_hop]. rewrite F. reflexivity. }
+  destruct (do_hops_rc_stack A ovl sz kmax _ _ _ _ D2) as [fuel' D'].
+  exists fuel', s', lid, lf. split; [exact D2|]. split; [exact D'|]. split; [apply R'|].
+  repeat (split; [assumption|]).
+  intros b w Hw. destruct (rel_handle A _ _ _ _ R' Hw) as (i' & Hi & _ & Hd). eauto.
+Qed.
+
+(* what uniq_rc counts, spelled out *)
+Lemma uniq_rc_spec_thm (A : CsgOps) (hs : list (option nat)) (h : heap A) (id : nat) :
+  uniq_rc A hs h id = true <->
+  count_occ Nat.eq_dec (handle_ids hs) id = 0 /\
+  child_refs A h (alive A h hs) id <= 1 /\
+  exists c, cell_of A h id = Some c /\ cell_owners A h (alive A h hs) c <= 1.
+Proof.
+  unfold uniq_rc. rewrite !andb_true_iff, Nat.eqb_eq, Nat.leb_le.
+  destruct (cell_of A h id) as [c|].
+  - rewrite Nat.leb_le. split.
+    + intros [[H1 H2] H3]. eauto.
+    + intros (H1 & H2 & c' & E & H3). inversion E; subst. auto.
+  - split; [intros [_ H]; discriminate|intros (_ & _ & c & E & _); discriminate].
 Qed.
